@@ -46,6 +46,11 @@ CHECKS = {
          "Held on 120 (quick) / 4080 (thorough) seeded sequences of length 1-6 over 23 hook content classes x 4 hooks x 6 config stores x 5 filter value classes x core.hooksPath forms x worktree layouts.",
          "A custom global value living only in $XDG_CONFIG_HOME/git/config while ~/.gitconfig exists is exercised but not judged (Git 2.39 `config --global` does not read it; outside the quantifier's scope list). uninstall removing the filter.lfs section is its documented purpose.",
          "DESIGN.md §5 C20"),
+ "C02": ("fault_enumeration",
+         "runtime monitor: real transfer queue with the real basic-download and custom-transfer adapters (in-process, -race) against a scripted fake server / scripted transfer agent; SHA-256 of the final path vs reported outcome; two concurrent race-instrumented fetch processes + observers checked with porcupine against a write-once register",
+         "Held on the full table of (.part state x first GET answer class) pairs (190) and agent misbehaviours (20) plus 160 (quick) / 3000 (thorough) seeded fault scripts, and 6 / 60 two-process histories (porcupine, nondeterministic write-once register, 60 s checker timeout => inconclusive).",
+         "The ssh (git-lfs-transfer) adapter is not driven: no fake ssh peer was built (see DESIGN.md limits); tus is out of the property's scope. Success = delivered on the queue's Watch channel.",
+         "DESIGN.md §5 C02"),
 }
 
 NOT_YET = {}
@@ -95,7 +100,7 @@ def main():
     json.dump(m, open("/verif/MANIFEST.json", "w"), indent=1)
     print("wrote MANIFEST.json:", len(checks), "checks,", len(na), "not claimed")
 
-ENGINE = {"C07": "codec", "C17": "codec", "C06": "tqmon", "C15": "tqmon", "C02": "tqmon"}
+ENGINE = {"C01": "e2e", "C07": "codec", "C17": "codec", "C06": "tqmon", "C15": "tqmon", "C02": "tqmon"}
 
 if __name__ == "__main__":
     main()
